@@ -27,3 +27,39 @@ package raftstore
 //@   assert@call proto.Marshal#0 : encoded: raftRepr(addrof(rlog), l)
 //@   assert@call NewMessageFromBytes#0 : same-entry: sameslice(callarg0, l.Data) && callarg1 == robust.IdFromRaftIndex(l.Index)
 //@   assert@call proto.Marshal#2 : encoded: rlog.Index == l.Index && rlog.Term == l.Term && rlog.Type == l.Type && sameslice(rlog.Extensions, l.Extensions) && rlog.AppendedAt.AsTime() == l.AppendedAt
+
+// ---------------------------------------------------------------------------
+// C09: the store as raft's LogStore/StableStore, function by function.
+
+// Deleting [min, max]: the iterator runs from the key of min (inclusive) to the
+// smallest key greater than the key of max (the 8-byte key of max followed by
+// a zero byte, exclusive) - no arithmetic on max, so nothing can wrap - and
+// a successful call has written its batch.
+//@ func LevelDBStore.DeleteRange
+//@   arith exact
+//@   requires s != nil && s.db != nil
+//@   assert@call PutUint64#0 : start: callarg2 == min && samearray(callarg1, startKey) && len(startKey) == 8
+//@   assert@call PutUint64#1 : limit: callarg2 == max && samearray(callarg1, limitKey) && len(limitKey) == 9
+//@   assert@call LevelDBStore.keyRangeIterator#0 : range: samearray(callarg1, startKey) && samearray(callarg2, limitKey)
+//@   ensures written: result == nil ==> s.db.seq == old(s.db.seq) + 1
+//@   modifies *
+
+// A missing entry is reported with raft's own not-found error.
+//@ func LevelDBStore.GetLog
+//@   assert@return raft.ErrLogNotFound#0 : notfound: err == leveldb.ErrNotFound
+
+// Log entries are filed under 8-byte keys, stable-store values under keys
+// that start with "stablestore-" (12 bytes): the two never shadow each other.
+//@ func LevelDBStore.StoreLogs
+//@   assert@call Batch.Put#0 : logkey: len(callarg1) == 8 && samearray(callarg1, key)
+//@   assert@call Batch.Put#1 : logkey: len(callarg1) == 8 && samearray(callarg1, key)
+//@ func LevelDBStore.StoreLogProto
+//@   assert@call Batch.Put#0 : logkey: len(callarg1) == 8 && samearray(callarg1, key)
+//@ func LevelDBStore.Set
+//@   assert@call DB.Put#0 : stablekey: len(callarg1) >= 12 && callarg1[0] == 's' && callarg1[11] == '-'
+//@ func LevelDBStore.SetUint64
+//@   assert@call DB.Put#0 : stablekey: len(callarg1) >= 12 && callarg1[0] == 's' && callarg1[11] == '-'
+//@ func LevelDBStore.Get
+//@   assert@call DB.Get#0 : stablekey: len(callarg1) >= 12 && callarg1[0] == 's' && callarg1[11] == '-'
+//@ func LevelDBStore.GetUint64
+//@   assert@call DB.Get#0 : stablekey: len(callarg1) >= 12 && callarg1[0] == 's' && callarg1[11] == '-'
